@@ -1,6 +1,6 @@
 """E4: tuple-shape abstract interpretation of match methods and index usage of printers.
 
-A *shape* is a tuple of element kinds:  'none' | ('lit', text) | ('node', class name or '?') | 'input' | 'list' | 'top'.
+A *shape* is a tuple of element kinds:  'none' | ('lit', text) | ('node', class name or '?') | 'input' | 'list' | 'seq' | 'top'.
 shapes_of(match function) is a set of shapes plus a flag `open` when some return could not be determined.
 """
 import ast
@@ -17,6 +17,7 @@ class ShapeSet:
         self.open = False       # some return is undetermined (⊤)
         self.none = False       # can return None
         self.node = False       # can return a ready-made node (Base instance)
+        self.conds = {}         # shape -> [ {param: truthiness required on the path to that return}, ... ] (one dict per return site)
 
     def arities(self):
         return {len(s) for s in self.shapes}
@@ -81,6 +82,8 @@ class Shapes:
             return "input"
         if isinstance(node, ast.BinOp):
             return "input"
+        if isinstance(node, (ast.List, ast.Tuple)) and node.elts and not any(isinstance(e, ast.Starred) for e in node.elts):
+            return "seq"        # a non-empty sequence literal (always truthy)
         if isinstance(node, (ast.List, ast.ListComp)):
             return "list"
         if isinstance(node, ast.Tuple):
@@ -144,11 +147,42 @@ class Shapes:
         last = f.node.body[-1] if f.node.body else None
         if not isinstance(last, (ast.Return, ast.Raise)):
             res.none = True
+        P = None
+        params = set(A.param_names(f.node))
         for r in rets:
-            self._ret(f, r.value, res, 0)
+            tmp = ShapeSet()
+            self._ret(f, r.value, tmp, 0)
+            if tmp.shapes and params:
+                if P is None:
+                    P = A.parents(f.node)
+                conds = self._param_conds(f, r, P, params)
+                for sh in tmp.shapes:
+                    res.conds.setdefault(sh, []).append(conds)
+            else:
+                for sh in tmp.shapes:
+                    res.conds.setdefault(sh, []).append({})
+            res.shapes |= tmp.shapes
+            res.open |= tmp.open
+            res.none |= tmp.none
+            res.node |= tmp.node
+            for sh, cs in tmp.conds.items():
+                pass
         self.stack.discard(key)
         self.cache[key] = res
         return res
+
+    def _param_conds(self, f, ret, P, params):
+        """{param: True/False} -- truthiness of plain parameters that the path to this return requires (from enclosing ifs and
+        earlier early exits); parameters that are re-assigned in the function are left out."""
+        from rules import delim_rules as D
+        reassigned = {n for x in A.body_nodes(f.node) if isinstance(x, (ast.Assign, ast.AugAssign, ast.For))
+                      for t in (x.targets if isinstance(x, ast.Assign) else [x.target]) for n in A.assigned_names(t)}
+        out = {}
+        for t, pol in D.facts_at(f.node, ret, P):
+            for lit, lp in D.expand(t, pol):
+                if isinstance(lit, ast.Name) and lit.id in params and lit.id not in reassigned:
+                    out[lit.id] = lp
+        return out
 
     def _ret(self, f, v, res, depth):
         if v is None or (isinstance(v, ast.Constant) and v.value is None):
@@ -241,8 +275,26 @@ class Shapes:
                     parts |= y[1] if isinstance(y, tuple) and y and y[0] == "alt" else {y}
                 return next(iter(parts)) if len(parts) == 1 else ("alt", frozenset(parts))
             return e
+        def truth(arg):
+            if arg is None:
+                return None
+            if isinstance(arg, ast.Constant):
+                return bool(arg.value)
+            return None
         out = set()
         for s in sub.shapes:
+            alts = sub.conds.get(s)
+            if alts:
+                feasible = False
+                for c in alts:
+                    ok = True
+                    for p_, want in c.items():
+                        got = truth(b.get(p_, defaults.get(p_)))
+                        if got is not None and got != want:
+                            ok = False
+                    feasible = feasible or ok
+                if not feasible:
+                    continue
             out.add(tuple(sub1(e) for e in s))
         return out
 
